@@ -20,7 +20,7 @@ EXPLANATION = (
     "S4 version constants ('MQIsdp',3) and ('MQTT',4); S5 length prefixes count the bytes that follow (= C01/L5); S6 stored "
     "packets are patched outside pdu.py only at byte 0 with dup<<3; S7 unrepresentable input raises (65535 string guard -> "
     "ValueError subclass, payload type dispatch ends in a TypeError subclass, 268435455 guard, 16-bit integers stored into "
-    "a bytearray whose item assignment is the range check); S8 the primitive encoders (remaining length, 16-bit, string) have the "
+    "a bytearray whose item assignment is the range check; and the domain premise: will QoS / QoS are shifted into two bits and the keep-alive stored into sixteen unchecked, so connect(), publish() and subscribe() must let through no more than 0..2 and 0..65535 - the G-INTERVAL instances of C20 for those arguments); S8 the primitive encoders (remaining length, 16-bit, string) have the "
     "prescribed radix, byte order and continuation/exit tests. Through C01's L2-L4 the decoders read what the encoders write. "
     "Value-level equality with a reference encoder on concrete inputs is NOT decided. "
     " S3 also follows every argument of connect/publish/subscribe/unsubscribe into a field of the request that is encoded; S9 also covers the decoders of client-bound packets: fixed header skipped the way decodeLength reads it (start 1, mask 0x80, step 1), every field read where the spec-checked encoder of the class puts it, PUBREL's DUP at bit 3 of byte 0.")
@@ -244,6 +244,19 @@ def check(ctx, as_premise=False):
         ok, v = prog.try_fold(root.consts[nm], root) if root and nm in root.consts else (False, None)
         ctx.ob("S4", "%s == %s" % (nm, exp), ok and v == exp, where="src/mqtt/__init__.py", construct="mqtt.%s" % nm,
                msg="%s is %s, the specification says %s" % (nm, v, exp))
+    # ---------------- S7: numbers the encoders write into a field narrower than an int ----------------
+    # the encoders shift will QoS / QoS into two bits and store the keep-alive into 16 of them without looking at the value: what keeps
+    # the reserved QoS 3 (and anything wider) off the wire is the range check of the API call that accepts the number.  C20's interval
+    # rule computes the set each call lets through; letting through more than the field's domain is an S7 violation here
+    from .common import run_premise
+
+    def _wider(f):
+        acc, st = f.detail.get("accepted"), f.detail.get("stated")
+        return f.rule == "G-INTERVAL" and f.detail.get("argument") in ("willQoS", "qos", "keepalive") and acc is not None and st is not None \
+            and (acc[0] < st[0] or acc[1] > st[1])
+    run_premise(ctx, "C20", "S7", "domain", "connect()/publish()/subscribe() let through only QoS 0..2 and a 16-bit keep-alive",
+                "the encoder writes the number into its bits unchecked: a reserved QoS or an overflowing keep-alive goes on the wire",
+                only=_wider)
     # ---------------- S5 / S7 from the primitives and the agreement check ----------------
     probs, facts = check_primitives(prog)
     for p in probs:
